@@ -267,6 +267,10 @@ def join_env(a, b):
     for k in set(a) | set(b):
         if k in a and k in b:
             out[k] = join(a[k], b[k])
+        elif k.startswith("@self."):
+            # strong-update overlay known on one path only: fall back to the
+            # heap (weak view of all stores), which also holds this store
+            continue
         else:
             out[k] = a.get(k) or b.get(k)
     return out
